@@ -180,8 +180,8 @@ def theorem_family(ew, enc, names, iflags=0x400000):
         if len(sig) != len(want) or any(w != "X" and w != s for w, s in zip(want, sig)) or not inn(sh):
             return None
         xi = want.index("X")
-        if sig[xi] == "R" and mode == 64 and k == "-" and optl in (["evex"], ["vex3"], ["vex"]) and sh in ("rvm", "rm", "rvmi", "rmi"):
-            return "vex_reg_opt_" + optl[0]          # Props/C01FrontOpt.lean
+        if sig[xi] == "R" and k == "-" and optl in (["evex"], ["vex3"], ["vex"]) and sh in ("rvm", "rm", "rvmi", "rmi"):
+            return "vex_reg" + ("32" if mode == 32 else "") + "_opt_" + optl[0]          # Props/C01FrontOpt.lean
         if sig[xi] == "R":
             if any(o not in ("z", "er", "sae", "rn", "rd", "ru", "rz") for o in optl):
                 return None
